@@ -61,11 +61,11 @@ theorem natOfDigits_snoc (ds : List Char) (c : Char) (m d : Nat) (hm : natOfDigi
     | cons a b => rfl
   have hne2 : (ds ++ [c]).isEmpty = false := by simp
   simp only [hne, Bool.false_eq_true, ↓reduceIte] at hm
-  simp only [hne2, Bool.false_eq_true, ↓reduceIte, List.foldl_append, List.foldl_cons, List.foldl_nil, hm, hd, hlt]
+  simp only [hne2, Bool.false_eq_true, ↓reduceIte, List.foldl_append, List.foldl_cons, List.foldl_nil, hm, hornerStep, hd, hlt]
 
 theorem natOfDigits_single (c : Char) (d : Nat) (hd : digitVal c = some d) (hlt : d < 10) :
     natOfDigits 10 [c] = some d := by
-  simp [natOfDigits, hd, hlt]
+  simp [natOfDigits, hornerStep, hd, hlt]
 
 /-- `strconv.ParseUint(strconv.FormatUint(n, 10), 10, …)` gives `n` back (before the range check) -/
 theorem natOfDigits_decDigits : ∀ f n, n < 10 ^ (f + 1) → natOfDigits 10 (decDigits f n) = some n := by
